@@ -325,10 +325,40 @@ def oracle_search(case, out):
     return None
 
 
+def gen_array(rng, n, big):
+    """bit-packed arrays of lm/trie.cc: vocabulary sizes at the RequiredBits boundaries, enough records to use up the slack bytes"""
+    cases = []
+    for _ in range(n):
+        k = rng.range(1, 10)
+        max_vocab = rng.choice([1 << k, (1 << k) - 1, (1 << k) + 1, rng.range(1, 1 << 12)])
+        quant = rng.choice([1, 8, 16, 25, 31, rng.range(1, 31)])
+        nrec = rng.choice([0, 1, 2, rng.range(1, 40), rng.range(60, 300 if big else 160)])
+        nrec = min(nrec, max_vocab)
+        words = sorted(set(rng.below(max_vocab + 1) for _ in range(nrec * 2)))[:nrec] if max_vocab > nrec else list(range(nrec))
+        words = [w for w in words if w <= max_vocab]
+        cases.append("TA %s %s %s" % (hx(max_vocab), hx(quant), " ".join("%s:%s" % (hx(rng.below(1 << quant)), hx(w)) for w in words)))
+    return cases
+
+
+def oracle_array(case, out):
+    f = case.split()
+    recs = [r.split(":") for r in f[3:]]
+    o = out.split()
+    if len(o) < 2 or o[1] != "guard-ok":
+        return "array of %d records wrote beyond the bytes Size() asked for" % len(recs)
+    got = o[2:]
+    if len(got) != len(recs):
+        return "unexpected output"
+    for (p, w), g in zip(recs, got):
+        if g != p:
+            return "record for word %s reads back %s, wrote %s" % (w, g, p)
+    return None
+
+
 ORACLES = {"W57": oracle_bitpack, "W25": oracle_bitpack, "F32": oracle_bitpack, "F31": oracle_bitpack, "R57": oracle_bitpack,
            "R25": oracle_bitpack, "RB": oracle_scalar, "SS": oracle_scalar, "US": oracle_scalar, "P32": oracle_scalar,
            "RND": oracle_scalar, "PT": oracle_table, "AP": oracle_table, "SU": oracle_search, "BS": oracle_search,
-           "S64": oracle_search}
+           "S64": oracle_search, "TA": oracle_array}
 
 
 def corpus_cases():
@@ -345,8 +375,8 @@ def run(ctx):
     ctx.count("corpus_cases", len(cases))
     rng = ctx.rng
     cases += gen_bitpack(rng, ctx.pick(1500, 40000)) + gen_scalar(rng, ctx.pick(600, 10000)) + \
-        gen_table(rng, ctx.pick(700, 12000), big) + gen_search(rng, ctx.pick(900, 20000), big)
-    impl = vlib.compile_driver("c20_driver", os.path.join(vlib.ROOT, "harness", "drivers", "c20_driver.cc"), libs=("kenlm_util",))
+        gen_table(rng, ctx.pick(700, 12000), big) + gen_search(rng, ctx.pick(900, 20000), big) + gen_array(rng, ctx.pick(250, 4000), big)
+    impl = vlib.compile_driver("c20_driver", os.path.join(vlib.ROOT, "harness", "drivers", "c20_driver.cc"), libs=("kenlm", "kenlm_util"))
     iout = vlib.run_lines(impl, cases)
     # step 5: specification oracle on the implementation
     spec_fail = []
@@ -365,6 +395,9 @@ def run(ctx):
                 nontrivial.add(c)
         elif k in ("SU", "BS", "S64"):
             if len(c.split()) > 4:
+                nontrivial.add(c)
+        elif k == "TA":
+            if len(c.split()) > 40:
                 nontrivial.add(c)
         elif k in ("W57", "W25", "F32", "F31"):
             if int(c.split()[2], 16) % 8:
@@ -412,7 +445,7 @@ def run(ctx):
 
 
 def replay(ctx, obj):
-    impl = vlib.compile_driver("c20_driver", os.path.join(vlib.ROOT, "harness", "drivers", "c20_driver.cc"), libs=("kenlm_util",))
+    impl = vlib.compile_driver("c20_driver", os.path.join(vlib.ROOT, "harness", "drivers", "c20_driver.cc"), libs=("kenlm", "kenlm_util"))
     c = obj["replay"]["case"]
     o = vlib.run_lines(impl, [c])[0]
     msg = ORACLES[c.split()[0]](c, o)
